@@ -314,6 +314,7 @@ Section Listing.
   Variable cu : cursor.                  (* the registry's continuation: `last` or an opaque token *)
   Variable npath : nat -> str -> str.    (* the path its next links point to *)
   Variable vis : item -> bool.           (* the entries it shows; pages may be empty although items remain *)
+  Variable InvQ : url -> Prop.           (* an invariant of the requests of the run (True when not needed) *)
 
   (* the URL the registry's next link of answer i stands for *)
   Definition link_target (i : nat) (rq : url) (x : str) : url :=
@@ -323,11 +324,13 @@ Section Listing.
   Hypothesis Hnonempty : forall it, In it L -> fst it <> [].
   (* any Link form that net/url resolves to the intended target (cursor x, the
      registry's extra parameters, the other parameters of the request) *)
-  Hypothesis Hrender_gt : forall i base x, In x (map fst L) ->
+  Hypothesis Hrender_gt : forall i base x, InvQ base -> In x (map fst L) ->
     contains c_gt (render i base (link_target i base x)) = false.
-  Hypothesis Hresolve : forall i base x, In x (map fst L) ->
+  Hypothesis Hresolve : forall i base x, InvQ base -> In x (map fst L) ->
     resolve base (render i base (link_target i base x)) = Some (link_target i base x).
-  (* the link does not change the artifactType the request asked for *)
+  (* the request for the target of a link keeps the invariant *)
+  Hypothesis Hinv : forall i base x, InvQ base -> In x (map fst L) ->
+    InvQ (mk_request c (link_target i base x) []).
   Hypothesis Hextra : c_kind c = KReferrers -> forall i, qget k_at (d_extra (ds i)) = None.
   (* an opaque cursor key does not collide with n / last / artifactType *)
   Hypothesis Hcu : cursor_ok cu.
@@ -408,12 +411,13 @@ Section Listing.
       rest_of (mk_request c u last) = rest ->
       L = pre ++ rest ->
       (c_kind c = KReferrers -> qget_s k_at (u_query (mk_request c u last)) = c_at c) ->
+      InvQ (mk_request c u last) ->
       (length rest < fuel)%nat ->
       let t := loop serve resolve (fun _ => false) c fuel i k u last in
       t_out t = Done /\ concat (t_pages t) = view rest /\ (length (t_reqs t) <= S (length rest))%nat.
   Proof.
     intro Hfits.
-    induction fuel as [|fuel IH]; intros i k u last rest pre Hrest HL Hat Hfuel; [lia|].
+    induction fuel as [|fuel IH]; intros i k u last rest pre Hrest HL Hat HI Hfuel; [lia|].
     cbn [loop]. cbv zeta.
     set (rq := mk_request c u last) in *.
     rewrite (handle_serve i rq (Hfits i) Hat). rewrite andb_false_r.
@@ -429,7 +433,8 @@ Section Listing.
       { unfold link_query, link_target, link_url. cbn [u_query]. fold m. now rewrite Hrest. }
       rewrite Etgt.
       rewrite parse_link_wellformed by (now apply Hrender_gt).
-      rewrite Hresolve by exact Hin.
+      rewrite Hresolve by (assumption).
+      pose proof (Hinv i rq _ HI Hin) as HI'.
       set (tgt := link_target i rq (last_name (firstn m rest))).
       assert (Hlast : cursor_read cu (u_query (mk_request c tgt [])) = last_name (firstn m rest)).
       { unfold tgt, link_target, link_url. now apply cursor_read_request. }
@@ -448,7 +453,7 @@ Section Listing.
       assert (Hlen : (length (skipn m rest) < fuel)%nat) by (rewrite skipn_length; lia).
       set (pg := if delivered c (view (firstn m rest)) then [view (firstn m rest)] else []).
       set (k' := if delivered c (view (firstn m rest)) then S k else k).
-      destruct (IH (S i) k' tgt [] (skipn m rest) (pre ++ firstn m rest) Hrest' HL' Hat' Hlen) as (O & P & R).
+      destruct (IH (S i) k' tgt [] (skipn m rest) (pre ++ firstn m rest) Hrest' HL' Hat' HI' Hlen) as (O & P & R).
       unfold prepend. cbn [t_out t_pages t_reqs]. split; [exact O|]. split.
       + rewrite concat_app. rewrite P. unfold pg. rewrite concat_delivered.
         rewrite <- view_app. now rewrite firstn_skipn.
@@ -470,6 +475,7 @@ Section Listing.
       rest_of (mk_request c u last) = rest ->
       L = pre ++ rest ->
       (c_kind c = KReferrers -> qget_s k_at (u_query (mk_request c u last)) = c_at c) ->
+      InvQ (mk_request c u last) ->
       (length rest < fuel)%nat ->
       let t := loop serve resolve (fun _ => false) c fuel i k u last in
       (t_out t = Done /\ concat (t_pages t) = view rest /\
@@ -478,7 +484,7 @@ Section Listing.
        exists n j, concat (t_pages t) = view (firstn n rest) /\ length (t_reqs t) = S j /\
                    ~ fits (i + j) /\ forall j', (j' < j)%nat -> fits (i + j')).
   Proof.
-    induction fuel as [|fuel IH]; intros i k u last rest pre Hrest HL Hat Hfuel; [lia|].
+    induction fuel as [|fuel IH]; intros i k u last rest pre Hrest HL Hat HI Hfuel; [lia|].
     cbn [loop]. cbv zeta.
     set (rq := mk_request c u last) in *.
     destruct (Z.le_gt_cases (Z.of_N (d_doc_len (ds i))) (eff_limit (c_limit c))) as [Hfit|Hbig].
@@ -497,7 +503,8 @@ Section Listing.
       { unfold link_query, link_target, link_url. cbn [u_query]. fold m. now rewrite Hrest. }
       rewrite Etgt.
       rewrite parse_link_wellformed by (now apply Hrender_gt).
-      rewrite Hresolve by exact Hin.
+      rewrite Hresolve by (assumption).
+      pose proof (Hinv i rq _ HI Hin) as HI'.
       set (tgt := link_target i rq (last_name (firstn m rest))).
       assert (Hlast : cursor_read cu (u_query (mk_request c tgt [])) = last_name (firstn m rest)).
       { unfold tgt, link_target, link_url. now apply cursor_read_request. }
@@ -516,7 +523,7 @@ Section Listing.
       assert (Hlen : (length (skipn m rest) < fuel)%nat) by (rewrite skipn_length; lia).
       set (pg := if delivered c (view (firstn m rest)) then [view (firstn m rest)] else []).
       set (k' := if delivered c (view (firstn m rest)) then S k else k).
-      destruct (IH (S i) k' tgt [] (skipn m rest) (pre ++ firstn m rest) Hrest' HL' Hat' Hlen)
+      destruct (IH (S i) k' tgt [] (skipn m rest) (pre ++ firstn m rest) Hrest' HL' Hat' HI' Hlen)
         as [(O & P & R)|(O & n & j & P & R & N & B)];
         unfold prepend; cbn [t_out t_pages t_reqs].
       + left. split; [exact O|]. split.
@@ -567,9 +574,9 @@ Proof.
   { unfold rest_of. rewrite start_cursor by (auto; reflexivity). unfold qget_s. rewrite mk_request_last. cbn [u_query qget].
     assert (S : sends_last (c_kind c) = true) by (destruct (c_kind c); try reflexivity; contradiction).
     rewrite S. destruct last0; reflexivity. }
-  destruct (loop_listing L cap ds render trailer resolve c cu npath vis Hnd Hne Hgt Hres
+  destruct (loop_listing L cap ds render trailer resolve c cu npath vis (fun _ => True) Hnd Hne (fun i base x _ Hx => Hgt i base x Hx) (fun i base x _ Hx => Hres i base x Hx) (fun _ _ _ _ _ => I)
               ltac:(intro; contradiction) Hcu Hfit fuel 0%nat 0%nat (mkUrl path []) last0 (after last0 L) pre
-              Hrest Hpre ltac:(intro; contradiction) Hfuel) as (O & P & R).
+              Hrest Hpre ltac:(intro; contradiction) I Hfuel) as (O & P & R).
   assert (V : view c vis (after last0 L) = filter vis (after last0 L)).
   { unfold view. destruct (c_kind c); try reflexivity; contradiction. }
   rewrite V in P. unfold serve in *. repeat split; auto.
@@ -610,9 +617,9 @@ Proof.
                 qget_s k_at (u_query (mk_request c (mkUrl path (referrers_query (c_at c))) [])) = c_at c).
   { intros _. unfold qget_s. rewrite mk_request_at. cbn [u_query]. unfold referrers_query.
     destruct (c_at c) as [|x a]; [reflexivity|]. cbn [is_empty qget]. now rewrite str_eqb_refl. }
-  pose proof (loop_listing L cap ds render trailer resolve c cu npath vis Hnd Hne Hgt Hres
+  pose proof (loop_listing L cap ds render trailer resolve c cu npath vis (fun _ => True) Hnd Hne (fun i base x _ Hx => Hgt i base x Hx) (fun i base x _ Hx => Hres i base x Hx) (fun _ _ _ _ _ => I)
               (fun _ => Hex) Hcu Hfit fuel 0%nat 0%nat (mkUrl path (referrers_query (c_at c))) [] L []
-              Hrest eq_refl Hat Hfuel) as H.
+              Hrest eq_refl Hat I Hfuel) as H.
   unfold serve in H. rewrite K in H. unfold view in H. rewrite K in H. exact H.
 Qed.
 
@@ -1074,8 +1081,8 @@ Proof.
                 qget_s k_at (u_query (mk_request c (mkUrl path (start_query c)) last0)) = c_at c).
   { intros K. unfold qget_s, start_query. rewrite mk_request_at. rewrite K. cbn [u_query]. unfold referrers_query.
     destruct (c_at c) as [|x a]; [reflexivity|]. cbn [is_empty qget]. now rewrite str_eqb_refl. }
-  exact (loop_listing_limit L cap ds render trailer resolve c cu npath vis Hnd Hne Hgt Hres Hex Hcu
-           fuel 0%nat 0%nat (mkUrl path (start_query c)) last0 (start_rest c last0 L) pre Hrest Hpre Hat Hfuel).
+  exact (loop_listing_limit L cap ds render trailer resolve c cu npath vis (fun _ => True) Hnd Hne (fun i base x _ Hx => Hgt i base x Hx) (fun i base x _ Hx => Hres i base x Hx) (fun _ _ _ _ _ => I) Hex Hcu
+           fuel 0%nat 0%nat (mkUrl path (start_query c)) last0 (start_rest c last0 L) pre Hrest Hpre Hat I Hfuel).
 Qed.
 
 (* ---------- referrers tag schema ---------- *)
@@ -1542,3 +1549,133 @@ Qed.
 Lemma digest_probe_v1_refuted :
   exists limit body, (eff_limit limit < Z.of_nat (length (fst (digest_probe_v1 limit body))))%Z.
 Proof. exists 3%Z, (b "abcdef"). vm_compute. reflexivity. Qed.
+
+(* ---------- the collecting helpers ---------- *)
+
+(* registry.Tags / registry.Repositories: the whole list the registry shows, once, in order *)
+Theorem collect_all_listing :
+  forall (L : list item) (cap : nat) (ds : nat -> decision)
+         (render : nat -> url -> url -> str) (trailer : nat -> str)
+         (resolve : url -> str -> option url) (c : cfg) (cu : cursor) (npath : nat -> str -> str) (vis : item -> bool)
+         (path : str) (fuel : nat),
+    cursor_ok cu ->
+    c_kind c <> KReferrers ->
+    NoDup (map fst L) -> (forall it, In it L -> fst it <> []) ->
+    (forall i base x, In x (map fst L) ->
+       contains c_gt (render i base (link_target ds cu npath i base x)) = false) ->
+    (forall i base x, In x (map fst L) ->
+       resolve base (render i base (link_target ds cu npath i base x)) = Some (link_target ds cu npath i base x)) ->
+    (forall i, (Z.of_N (d_doc_len (ds i)) <= eff_limit (c_limit c))%Z) ->
+    (length L < fuel)%nat ->
+    collect_all (loop (reg_serve (c_kind c) cu npath vis L cap ds render trailer) resolve (fun _ => false) c
+                      fuel 0 0 (mkUrl path []) []) = (Done, filter vis L).
+Proof.
+  intros L cap ds render trailer resolve c cu npath vis path fuel Hcu K Hnd Hne Hgt Hres Hfit Hfuel.
+  destruct (listing_exactly_once L cap ds render trailer resolve c cu npath vis path [] fuel
+              Hcu K Hnd Hne Hgt Hres Hfit Hfuel) as (O & P & _).
+  unfold collect_all. cbv zeta in O, P. rewrite O, P. reflexivity.
+Qed.
+
+(* registry.Referrers / Repository.Predecessors (artifact type as asked) *)
+Theorem collect_all_referrers :
+  forall (L : list item) (cap : nat) (ds : nat -> decision)
+         (render : nat -> url -> url -> str) (trailer : nat -> str)
+         (resolve : url -> str -> option url) (c : cfg) (cu : cursor) (npath : nat -> str -> str) (vis : item -> bool)
+         (path : str) (fuel : nat),
+    cursor_ok cu ->
+    c_kind c = KReferrers ->
+    NoDup (map fst L) -> (forall it, In it L -> fst it <> []) ->
+    (forall i base x, In x (map fst L) ->
+       contains c_gt (render i base (link_target ds cu npath i base x)) = false) ->
+    (forall i base x, In x (map fst L) ->
+       resolve base (render i base (link_target ds cu npath i base x)) = Some (link_target ds cu npath i base x)) ->
+    (forall i, (Z.of_N (d_doc_len (ds i)) <= eff_limit (c_limit c))%Z) ->
+    (forall i, qget k_at (d_extra (ds i)) = None) ->
+    (length L < fuel)%nat ->
+    collect_all (loop (reg_serve KReferrers cu npath vis L cap ds render trailer) resolve (fun _ => false) c
+                      fuel 0 0 (mkUrl path (referrers_query (c_at c))) []) =
+    (Done, filter_referrers (filter vis L) (c_at c)).
+Proof.
+  intros L cap ds render trailer resolve c cu npath vis path fuel Hcu K Hnd Hne Hgt Hres Hfit Hex Hfuel.
+  destruct (referrers_exactly_once L cap ds render trailer resolve c cu npath vis path fuel
+              Hcu K Hnd Hne Hgt Hres Hfit Hex Hfuel) as (O & P & _).
+  unfold collect_all. cbv zeta in O, P. rewrite O, P. reflexivity.
+Qed.
+
+(* ---------- exactly once, with the link hypotheses only for requests satisfying an invariant ---------- *)
+
+Theorem listing_exactly_once_inv :
+  forall (L : list item) (cap : nat) (ds : nat -> decision)
+         (render : nat -> url -> url -> str) (trailer : nat -> str)
+         (resolve : url -> str -> option url) (c : cfg) (cu : cursor) (npath : nat -> str -> str) (vis : item -> bool)
+         (InvQ : url -> Prop) (path last0 : str) (fuel : nat),
+    cursor_ok cu ->
+    c_kind c <> KReferrers ->
+    NoDup (map fst L) -> (forall it, In it L -> fst it <> []) ->
+    (forall i base x, InvQ base -> In x (map fst L) ->
+       contains c_gt (render i base (link_target ds cu npath i base x)) = false) ->
+    (forall i base x, InvQ base -> In x (map fst L) ->
+       resolve base (render i base (link_target ds cu npath i base x)) = Some (link_target ds cu npath i base x)) ->
+    (forall i base x, InvQ base -> In x (map fst L) ->
+       InvQ (mk_request c (link_target ds cu npath i base x) [])) ->
+    InvQ (mk_request c (mkUrl path []) last0) ->
+    (forall i, (Z.of_N (d_doc_len (ds i)) <= eff_limit (c_limit c))%Z) ->
+    (length (after last0 L) < fuel)%nat ->
+    let t := loop (reg_serve (c_kind c) cu npath vis L cap ds render trailer) resolve (fun _ => false) c
+                  fuel 0 0 (mkUrl path []) last0 in
+    t_out t = Done /\
+    concat (t_pages t) = filter vis (after last0 L) /\
+    (length (t_reqs t) <= S (length (after last0 L)))%nat.
+Proof.
+  intros L cap ds render trailer resolve c cu npath vis InvQ path last0 fuel Hcu K Hnd Hne Hgt Hres Hinv H0 Hfit Hfuel.
+  destruct (after_suffix last0 L) as [pre Hpre].
+  assert (Hrest : rest_of L cu (mk_request c (mkUrl path []) last0) = after last0 L).
+  { unfold rest_of. rewrite start_cursor by (auto; reflexivity). unfold qget_s. rewrite mk_request_last. cbn [u_query qget].
+    assert (S : sends_last (c_kind c) = true) by (destruct (c_kind c); try reflexivity; contradiction).
+    rewrite S. destruct last0; reflexivity. }
+  destruct (loop_listing L cap ds render trailer resolve c cu npath vis InvQ Hnd Hne Hgt Hres Hinv
+              ltac:(intro; contradiction) Hcu Hfit fuel 0%nat 0%nat (mkUrl path []) last0 (after last0 L) pre
+              Hrest Hpre ltac:(intro; contradiction) H0 Hfuel) as (O & P & R).
+  assert (V : view c vis (after last0 L) = filter vis (after last0 L)).
+  { unfold view. destruct (c_kind c); try reflexivity; contradiction. }
+  rewrite V in P. unfold serve in *. repeat split; auto.
+Qed.
+
+Theorem referrers_exactly_once_inv :
+  forall (L : list item) (cap : nat) (ds : nat -> decision)
+         (render : nat -> url -> url -> str) (trailer : nat -> str)
+         (resolve : url -> str -> option url) (c : cfg) (cu : cursor) (npath : nat -> str -> str) (vis : item -> bool)
+         (InvQ : url -> Prop) (path : str) (fuel : nat),
+    cursor_ok cu ->
+    c_kind c = KReferrers ->
+    NoDup (map fst L) -> (forall it, In it L -> fst it <> []) ->
+    (forall i base x, InvQ base -> In x (map fst L) ->
+       contains c_gt (render i base (link_target ds cu npath i base x)) = false) ->
+    (forall i base x, InvQ base -> In x (map fst L) ->
+       resolve base (render i base (link_target ds cu npath i base x)) = Some (link_target ds cu npath i base x)) ->
+    (forall i base x, InvQ base -> In x (map fst L) ->
+       InvQ (mk_request c (link_target ds cu npath i base x) [])) ->
+    InvQ (mk_request c (mkUrl path (referrers_query (c_at c))) []) ->
+    (forall i, (Z.of_N (d_doc_len (ds i)) <= eff_limit (c_limit c))%Z) ->
+    (forall i, qget k_at (d_extra (ds i)) = None) ->
+    (length L < fuel)%nat ->
+    let t := loop (reg_serve KReferrers cu npath vis L cap ds render trailer) resolve (fun _ => false) c
+                  fuel 0 0 (mkUrl path (referrers_query (c_at c))) [] in
+    t_out t = Done /\
+    concat (t_pages t) = filter_referrers (filter vis L) (c_at c) /\
+    (length (t_reqs t) <= S (length L))%nat.
+Proof.
+  intros L cap ds render trailer resolve c cu npath vis InvQ path fuel Hcu K Hnd Hne Hgt Hres Hinv H0 Hfit Hex Hfuel.
+  assert (Hrest : rest_of L cu (mk_request c (mkUrl path (referrers_query (c_at c))) []) = L).
+  { unfold rest_of. rewrite start_cursor by (auto; intros k s E; apply referrers_query_other; rewrite E in Hcu; apply Hcu).
+    unfold qget_s. rewrite mk_request_last. rewrite K. cbn [sends_last andb u_query].
+    unfold referrers_query. destruct (is_empty (c_at c)); reflexivity. }
+  assert (Hat : c_kind c = KReferrers ->
+                qget_s k_at (u_query (mk_request c (mkUrl path (referrers_query (c_at c))) [])) = c_at c).
+  { intros _. unfold qget_s. rewrite mk_request_at. cbn [u_query]. unfold referrers_query.
+    destruct (c_at c) as [|x a]; [reflexivity|]. cbn [is_empty qget]. now rewrite str_eqb_refl. }
+  pose proof (loop_listing L cap ds render trailer resolve c cu npath vis InvQ Hnd Hne Hgt Hres Hinv
+              (fun _ => Hex) Hcu Hfit fuel 0%nat 0%nat (mkUrl path (referrers_query (c_at c))) [] L []
+              Hrest eq_refl Hat H0 Hfuel) as H.
+  unfold serve in H. rewrite K in H. unfold view in H. rewrite K in H. exact H.
+Qed.
